@@ -61,3 +61,76 @@ theorem parse_enc (v : Nat) (h : v ≤ maxVarInt8) (rest : Bytes) :
         rw [e, parse_w8 _ _ _ _ _ _ _ _ _ (by rw [u8_toNat]; omega)]
         simp only [u8_toNat]
         congr 2; omega
+
+theorem len_enc (v : Nat) (h : v ≤ maxVarInt8) : (enc v).length = len v := by
+  unfold enc len
+  rw [max1_eq, max2_eq, max4_eq, max8_eq] at *
+  by_cases h1 : v ≤ 63 <;> by_cases h2 : v ≤ 16383 <;> by_cases h4 : v ≤ 1073741823 <;> simp [h1, h2, h4, h]
+
+theorem len_pos (v : Nat) (h : v ≤ maxVarInt8) : 0 < len v := by
+  unfold len
+  rw [max1_eq, max2_eq, max4_eq, max8_eq] at *
+  by_cases h1 : v ≤ 63 <;> by_cases h2 : v ≤ 16383 <;> by_cases h4 : v ≤ 1073741823 <;> simp [h1, h2, h4, h]
+
+/-- what a successful parse looks like: the consumed prefix alone determines the result -/
+theorem parse_ok_inv (b : Bytes) (v n : Nat) (h : parse b = .ok (v, n)) :
+    n ≤ b.length ∧ 0 < n ∧ v ≤ maxVarInt8 ∧ len v ≤ n ∧ ∀ r, parse (b.take n ++ r) = .ok (v, n) := by
+  rw [max8_eq]
+  match b with
+  | [] => simp [parse] at h
+  | b0 :: rest =>
+    have hb0 := b0.toNat_lt
+    have hq : b0.toNat / 64 = 0 ∨ b0.toNat / 64 = 1 ∨ b0.toNat / 64 = 2 ∨ b0.toNat / 64 = 3 := by omega
+    rcases hq with hq | hq | hq | hq
+    · rw [parse_w1 _ _ hq] at h
+      simp only [Except.ok.injEq, Prod.mk.injEq] at h
+      obtain ⟨hv, hn⟩ := h
+      subst hn; subst hv
+      refine ⟨by simp, by omega, by omega, ?_, ?_⟩
+      · unfold len; rw [max1_eq, if_pos (by omega)]; omega
+      · intro r; simp [parse_w1 _ _ hq]
+    · match rest with
+      | [] => simp [parse, hq] at h
+      | b1 :: rest' =>
+        have hb1 := b1.toNat_lt
+        rw [parse_w2 _ _ _ hq] at h
+        simp only [Except.ok.injEq, Prod.mk.injEq] at h
+        obtain ⟨hv, hn⟩ := h
+        subst hn; subst hv
+        refine ⟨by simp, by omega, by omega, ?_, ?_⟩
+        · unfold len; rw [max1_eq, max2_eq]; split <;> (try split) <;> omega
+        · intro r; simp [parse_w2 _ _ _ hq]
+    · match rest with
+      | [] => simp [parse, hq] at h
+      | [_] => simp [parse, hq] at h
+      | [_, _] => simp [parse, hq] at h
+      | b1 :: b2 :: b3 :: rest' =>
+        have hb1 := b1.toNat_lt; have hb2 := b2.toNat_lt; have hb3 := b3.toNat_lt
+        rw [parse_w4 _ _ _ _ _ hq] at h
+        simp only [Except.ok.injEq, Prod.mk.injEq] at h
+        obtain ⟨hv, hn⟩ := h
+        subst hn; subst hv
+        refine ⟨by simp, by omega, by omega, ?_, ?_⟩
+        · unfold len; rw [max1_eq, max2_eq, max4_eq]; split <;> (try split) <;> (try split) <;> omega
+        · intro r; simp [parse_w4 _ _ _ _ _ hq]
+    · match rest with
+      | [] => simp [parse, hq] at h
+      | [_] => simp [parse, hq] at h
+      | [_, _] => simp [parse, hq] at h
+      | [_, _, _] => simp [parse, hq] at h
+      | [_, _, _, _] => simp [parse, hq] at h
+      | [_, _, _, _, _] => simp [parse, hq] at h
+      | [_, _, _, _, _, _] => simp [parse, hq] at h
+      | b1 :: b2 :: b3 :: b4 :: b5 :: b6 :: b7 :: rest' =>
+        have hb1 := b1.toNat_lt; have hb2 := b2.toNat_lt; have hb3 := b3.toNat_lt; have hb4 := b4.toNat_lt
+        have hb5 := b5.toNat_lt; have hb6 := b6.toNat_lt; have hb7 := b7.toNat_lt
+        rw [parse_w8 _ _ _ _ _ _ _ _ _ hq] at h
+        simp only [Except.ok.injEq, Prod.mk.injEq] at h
+        obtain ⟨hv, hn⟩ := h
+        subst hn; subst hv
+        refine ⟨by simp, by omega, by omega, ?_, ?_⟩
+        · unfold len; rw [max1_eq, max2_eq, max4_eq, max8_eq]
+          split <;> (try split) <;> (try split) <;> (try split) <;> omega
+        · intro r; simp [parse_w8 _ _ _ _ _ _ _ _ _ hq]
+
+
